@@ -851,3 +851,125 @@ pub fn run_authz_model(cfg: &ScenCfg, out: &mut RunOut) {
     }
     kernel::settle();
 }
+
+// ---------------------------------------------------------------------------
+// C16 (Rust API, TLS and TLS+authz): the filter is applied before any TLS byte
+
+/// variant 0: TLS, 1: TLS + authorization handler
+pub fn run_filter_tls(cfg: &ScenCfg, out: &mut RunOut) {
+    use super::sessions::{gen_filter, gen_peer_ip_pub};
+    let sched = chance(1, 2);
+    kernel::with(|w| {
+        w.cfg.sched_random = sched;
+        w.cfg.select_random = sched;
+    });
+    let (dec_idx, decode) = pick_decode(&cfg.decode);
+    let (spec, base) = gen_filter();
+    let tls = TlsServerConfig::new(
+        &fixture("ca1_cert.pem"),
+        &fixture("srv_ok_cert.pem"),
+        &fixture("srv_ok_key.pem"),
+        None,
+        MinTlsVersion::V1_2,
+        CertificateMode::AuthorityBased,
+    )
+    .expect("server config");
+    let journal: Journal = Arc::new(Mutex::new(Vec::new()));
+    let mem = UnitMem::new(0xC16);
+    let handler = MemHandler {
+        unit: 1,
+        mem: mem.clone(),
+        journal: journal.clone(),
+    }
+    .wrap();
+    let map = ServerHandlerMap::single(UnitId::new(1), handler);
+    let addr: SocketAddr = "10.0.0.1:802".parse().unwrap();
+    let listener = TcpListener::bind_now(addr).unwrap();
+    let (handle, task) = if cfg.variant == 1 {
+        let auth = Arc::new(PolicyAuth {
+            policy: Policy::AllowAll,
+            journal: journal.clone(),
+        });
+        create_tls_server_task_with_authz(8, listener, map, auth, tls, spec.to_rodbus(), decode)
+    } else {
+        create_tls_server_task(8, listener, map, tls, spec.to_rodbus(), decode)
+    };
+    let _task = simtokio::task::spawn_named("tls-server", task.run());
+    kernel::settle();
+    let mut wl = dec_idx as u64 | (cfg.variant as u64) << 8;
+    hash_bytes(&mut wl, format!("{:?}", spec).as_bytes());
+    let n = 1 + choose(4) as usize;
+    let v = mem.read_reg(4, 2).unwrap();
+    let request = mbap_frame(0x16, 1, &[4, 0, 2, 0, 1]);
+    let good = mbap_frame(0x16, 1, &[4, 2, (v >> 8) as u8, v as u8]);
+    let mut samples = Vec::new();
+    for _ in 0..n {
+        let ip = gen_peer_ip_pub(base);
+        hash_bytes(&mut wl, ip.to_string().as_bytes());
+        let matches = spec.matches(ip);
+        kernel::with(|w| w.net.client_ip = Some(ip));
+        let result = Arc::new(Mutex::new(PeerResult::default()));
+        let raw_bytes = Arc::new(Mutex::new(0u64));
+        {
+            let result = result.clone();
+            let request = request.clone();
+            let pcfg = peer_client_config(2, "cli_operator_cert.pem", "cli_operator_key.pem");
+            simtokio::task::spawn_named("tls-peer-client", async move {
+                let tcp = match TcpStream::connect(addr).await {
+                    Ok(t) => t,
+                    Err(_) => return,
+                };
+                result.lock().unwrap().connected_tcp = true;
+                let connector = tokio_rustls::TlsConnector::from(pcfg);
+                let mut stream = match connector.connect(ServerName::try_from("test.com").unwrap(), tcp).await {
+                    Ok(s) => s,
+                    Err(e) => {
+                        let mut r = result.lock().unwrap();
+                        r.handshake_ok = Some(false);
+                        r.error = format!("{}", e);
+                        return;
+                    }
+                };
+                result.lock().unwrap().handshake_ok = Some(true);
+                if stream.write_all(&request).await.is_err() {
+                    return;
+                }
+                let mut buf = [0u8; 64];
+                if let Ok(Ok(n)) = simtokio::time::timeout(Duration::from_secs(1), stream.read(&mut buf)).await {
+                    result.lock().unwrap().app_bytes.extend_from_slice(&buf[..n]);
+                }
+                simtokio::time::sleep(Duration::from_secs(2)).await;
+            });
+        }
+        let conns_before = kernel::with(|w| w.net.conns.len());
+        kernel::run_until(|| false, kernel::now_ns() + 1_500 * MS, 200_000);
+        // bytes the server wrote on this connection at the TCP level
+        let server_bytes = kernel::with(|w| w.net.conns.get(conns_before).map(|c| c.pipes[1].total_written).unwrap_or(0));
+        *raw_bytes.lock().unwrap() = server_bytes;
+        let r = result.lock().unwrap().clone();
+        if samples.len() < 4 {
+            samples.push(json!({"peer": ip.to_string(), "matches": matches, "server_tcp_bytes": server_bytes, "handshake": r.handshake_ok}));
+        }
+        if matches {
+            if r.app_bytes != good {
+                out.violate("C16", "matching_peer_not_served", format!("tls variant {}, filter {:?}: peer {} matches but got handshake={:?} reply={} err={}", cfg.variant, spec, ip, r.handshake_ok, hex(&r.app_bytes), r.error));
+                return;
+            }
+            out.probe("served");
+        } else {
+            if server_bytes != 0 || r.handshake_ok == Some(true) {
+                out.violate("C16", "non_matching_peer_served", format!("tls variant {}, filter {:?}: peer {} does not match but the server sent {} bytes (handshake {:?})", cfg.variant, spec, ip, server_bytes, r.handshake_ok));
+                return;
+            }
+            out.probe("rejected");
+        }
+        out.ops_checked += 1;
+    }
+    out.nontrivial = Some(wl);
+    out.sample = Some(json!({"scenario": "address filter (Rust API, TLS)", "variant": cfg.variant, "filter": format!("{:?}", spec), "peers": samples}));
+    {
+        let mut fut = Box::pin(handle.shutdown());
+        let _ = kernel::block_on(fut.as_mut());
+    }
+    kernel::settle();
+}
